@@ -54,8 +54,16 @@ def stab(gens, n, rnd):
     r = rnd.random()
     if r < 0.5:
         return Stabilizer(ws.strings(gens, n, rnd.random() < 0.5))
-    R, S, ph = ws.matrices(gens, n)
-    return Stabilizer((R, S, ph))
+    dt = rnd.choice([np.int8, np.int8, np.int64, np.uint8, np.bool_])     # binary matrices in the dtypes callers have at hand
+    R, S, ph = ws.matrices(gens, n, dt)
+    return Stabilizer((R, S, ph.astype(np.int8))) if rnd.random() < 0.7 else Stabilizer((R, S))
+
+
+def light(gens0, n, rnd):
+    """The same generators, only re-ordered and with other signs (no re-mixing of the generating set)."""
+    g = [(x, z, rnd.getrandbits(1)) for (x, z, *_r) in gens0]
+    rnd.shuffle(g)
+    return g
 
 
 def present(gens0, n, rnd):
@@ -78,7 +86,13 @@ def drain(p, what_case):
 
 
 def eq_call(p, a, b, n, rnd, near=False):
-    sa, sb = stab(present(a, n, rnd), n, rnd), stab(present(b, n, rnd), n, rnd)
+    k = rnd.randrange(3)
+    if k == 0:
+        sa, sb = stab(light(a, n, rnd), n, rnd), stab(light(b, n, rnd), n, rnd)        # generating sets as they are
+    elif k == 1:
+        sa, sb = stab(light(a, n, rnd), n, rnd), stab(present(b, n, rnd), n, rnd)
+    else:
+        sa, sb = stab(present(a, n, rnd), n, rnd), stab(present(b, n, rnd), n, rnd)
     ok, r = call(sa.is_equivalent_mod_phase, sb)
     p.evals += 1
     if not ok:
